@@ -79,6 +79,11 @@ OtherSpace(P) ==
 (* absolute positions the program reads: `gtxn i f`, and `int i` directly consumed by `gtxns f` *)
 AbsPos(P) == { P[i].n : i \in { j \in 1..Len(P) : P[j].op = "gtxn" } }
              \cup { P[i].n : i \in { j \in 1..(Len(P) - 1) : P[j].op \in {"int", "pushint"} /\ P[j + 1].op = "gtxns" } }
+             \* ... the sum of two constants (`int a; int b; +; gtxns f`)
+             \cup { P[j].n + P[j + 1].n :
+                    j \in { k \in 1..(Len(P) - 3) : /\ P[k].op \in {"int", "pushint"} /\ P[k + 1].op \in {"int", "pushint"}
+                                                    /\ P[k + 2].op = "+" /\ P[k + 3].op = "gtxns"
+                                                    /\ P[k].n + P[k + 1].n <= 15 } }
              \* ... and small constants pushed shortly before a `swap; gtxns` (the index, or the value swapped away)
              \cup { P[i].n : i \in { j \in 1..Len(P) : /\ P[j].op \in {"int", "pushint"} /\ P[j].n <= 15
                                                        /\ \E k \in (j + 1)..(j + 5) : k + 1 <= Len(P) /\ P[k].op = "swap"
@@ -86,7 +91,11 @@ AbsPos(P) == { P[i].n : i \in { j \in 1..Len(P) : P[j].op = "gtxn" } }
 (* offsets: `int k` feeding a + / - whose result is consumed by `gtxns f` *)
 Offsets(P) ==
     { P[i].n : i \in { j \in 1..Len(P) : /\ P[j].op \in {"int", "pushint"}
-                                         /\ \/ (j + 2 <= Len(P) /\ P[j + 1].op \in {"+", "-"} /\ P[j + 2].op = "gtxns")
+                                         /\ \/ (j + 2 <= Len(P) /\ P[j + 1].op \in {"+", "-"} /\ P[j + 2].op = "gtxns"
+                                                 /\ ~(j > 1 /\ P[j - 1].op \in {"int", "pushint"}))
+                                            \* `int a; int b; +; gtxns`: a wrong reading of a as an offset must find a transaction there
+                                            \/ (j + 3 <= Len(P) /\ P[j + 1].op \in {"int", "pushint"} /\ P[j + 2].op = "+"
+                                                 /\ P[j + 3].op = "gtxns")
                                             \/ (j + 3 <= Len(P) /\ P[j + 1].op \in {"+", "-"} /\ P[j + 2].op = "swap"
                                                  /\ P[j + 3].op = "gtxns")
                                             \/ (j + 3 <= Len(P) /\ P[j + 1].op = "txn" /\ P[j + 2].op \in {"+", "-"}
